@@ -454,6 +454,11 @@ CPB = "rl4co/models/common/constructive/base.py"
 PPOF = "rl4co/models/rl/ppo/ppo.py"
 CORPUS += [
     # ---------------------------------------------------------------- C11
+    V("C11", "mdam-scores-not-normalised", "rl4co/models/zoo/mdam/decoder.py", "        if normalize:\n            logprobs = F.log_softmax(logprobs, dim=-1)\n", "", "C11.f"),
+    V("C11", "ptrnet-scores-not-normalised", "rl4co/models/zoo/ptrnet/decoder.py", "log_p = torch.log_softmax(logits, dim=1)", "log_p = logits", "C11.f"),
+    V("C11", "ptrnet-temperature-after-normalisation", "rl4co/models/zoo/ptrnet/decoder.py", "log_p = torch.log_softmax(logits, dim=1)", "log_p = torch.log_softmax(logits, dim=1) / 2.0", "C11.f"),
+    V("C11", "eq-ptrnet-log-softmax-method", "rl4co/models/zoo/ptrnet/decoder.py", "log_p = torch.log_softmax(logits, dim=1)", "log_p = logits.log_softmax(dim=1)", None),
+    V("C11", "eq-mdam-log-softmax-torch", "rl4co/models/zoo/mdam/decoder.py", "logprobs = F.log_softmax(logprobs, dim=-1)", "logprobs = torch.log_softmax(logprobs, dim=-1)", None),
     V("C11", "step-append-only-actions-when-storing-all", DECP, "        self.actions.append(selected_action)\n        self.logprobs.append(logprobs)\n        return td", "        self.actions.append(selected_action)\n        if not self.store_all_logp:\n            self.logprobs.append(logprobs)\n        return td", "C11.a"),
     V("C11", "step-gather-with-given-action", DECP, "logprobs = gather_by_index(logprobs, selected_action, dim=1)", "logprobs = gather_by_index(logprobs, action if action is not None else selected_action, dim=1)", "C11.b"),
     V("C11", "step-unprocessed-logits", DECP, "        logprobs, selected_action, td = self._step(\n            logprobs, mask, td, action=action, **kwargs\n        )", "        logprobs, selected_action, td = self._step(\n            logits, mask, td, action=action, **kwargs\n        )", "C11.b"),
